@@ -211,3 +211,206 @@ Print Assumptions c10_so_reads_back.
 Print Assumptions c10_so_example.
 Print Assumptions c10_link_command_decodes.
 Print Assumptions c10_link_command_example.
+
+(* ====================================================================================================== *)
+(** * end to end with create (X5)
+
+    The magnet link `torrent link` prints for the bytes `torrent create` wrote, and the link `create --link`
+    prints. Composition of C05 ([Metainfo.build]), C04 ([Infohash.hashed_bytes] / [infohash_of], the lossy path
+    [Infohash.ser_info]), C07's typed loader (link.rs loads the file with Metainfo::from_input) and this file's
+    [link_cmd] / standard parser. Model: Model/EndToEndShow.v ([link_file] = link.rs on given bytes, [create_link] =
+    MagnetLink::from_metainfo_lossy on the struct create holds); proofs: Proofs/EndToEndShowProofs.v.
+    [norm], [host_canon], [git_suffix] are C05's Section variables, [host_disp] / [url_norm] C07's and this file's,
+    [H] is SHA-1 (nothing is assumed of it but that it returns bytes), [md] bendy's depth limit. The side conditions
+    are those of c07_created_bytes_show_back (link.rs runs the same loader) plus [depth_ok]; the [wfb] hypotheses
+    say that names, digests, peers and URLs are bytes ([byte] is [N] in the models), as in c10_link_command_decodes.
+
+    X5b (on the models as X4 left them): [link_file] loads the file with [Summary.from_input], the one typed loader of
+    `show`, `link` and `verify` (serde's reader: nesting at most [BencodeWide.max_depth], i64 for what is skipped or
+    buffered; the typed record now carries the MD5 texts, which the link does not use). Its nesting bound is proved
+    to hold for every created metainfo ([c10_e2e_depth_within_limit]) and used in the proofs, not assumed. *)
+From Imdl Require Model.BencodeWide Model.Metainfo Model.Schema Model.Infohash Model.Summary Generated.GenInfohash
+  Proofs.MetainfoProofs Proofs.EndToEndShowExamples.
+From Imdl Require Import Model.EndToEndShow Proofs.EndToEndShowProofs.
+
+(** bridge: bendy's struct serialiser as C04 models it (sort the fields, refuse duplicates) and as C05 models it
+    (insert one by one, refusing duplicates) build the same dictionary from the same fields, in whatever order
+    they are handed over *)
+Theorem c10_e2e_same_serialiser : forall es e,
+  Schema.distinct_keys (map fst es) = true -> Schema.distinct_keys (map fst e) = true ->
+  (forall y, In y e <-> In y (present es)) -> Infohash.ser_struct e = Schema.mk_dict es.
+Proof. exact ser_struct_of_mk_dict. Qed.
+
+(** C04's lossy path applies to what create holds: the serialisation of the typed `Metainfo` struct is the bytes
+    C05 writes, and `create --link` / `create --show` hash what `link` / `show` hash on that file
+    (by c04_lossy_agrees_on_created) *)
+Theorem c10_e2e_lossy_on_created :
+  forall norm host_canon git_suffix (H : list N -> list N) md o c v name trailing,
+    Metainfo.input_ok (Metainfo.c_input c) = true -> Metainfo.opts_ok o = true ->
+    Metainfo.piece_length_of o (Metainfo.c_input c) < 2 ^ 63 ->
+    Metainfo.build norm host_canon git_suffix o c = Some v ->
+    Metainfo.name_of o (Metainfo.c_input c) = Some name -> Infohash.depth_ok md v = true ->
+    exists typed,
+      Infohash.ser_info (tinfo_of norm o c name) = Some typed /\
+      Infohash.ser_metainfo (present (other_entries norm host_canon git_suffix o)) (tinfo_of norm o c name)
+        = Some (encode v) /\
+      Infohash.infohash_of (list N) H md (encode v ++ trailing) = Some (H typed).
+Proof. exact lossy_created. Qed.
+
+(** both commands, as [link_cmd] of the requested name, the requested trackers and the hash of the info dictionary
+    as stored, which is the span `Infohash::from_input` hashes in those bytes *)
+Theorem c10_created_links_are_link_cmd :
+  forall norm host_canon git_suffix (H : list N -> list N) host_disp url_norm md o c v name nodes upd peers select_only,
+    Metainfo.input_ok (Metainfo.c_input c) = true -> Metainfo.opts_ok o = true ->
+    Metainfo.piece_length_of o (Metainfo.c_input c) < 2 ^ 63 ->
+    texts_utf8 norm host_canon git_suffix o c = true -> content_shown_ok (Metainfo.o_md5 o) c = true ->
+    Metainfo.build norm host_canon git_suffix o c = Some v ->
+    Metainfo.name_of o (Metainfo.c_input c) = Some name ->
+    nodes_text host_canon host_disp o = Some nodes -> update_text norm url_norm o = Some upd ->
+    Infohash.depth_ok md v = true ->
+    exists info,
+      Schema.vget (Schema.txt "info") v = Some info /\
+      Infohash.hashed_bytes md (encode v) = Some (encode info) /\
+      Infohash.ser_info (tinfo_of norm o c name) = Some (encode info) /\
+      link_file H host_disp url_norm md (encode v) peers select_only
+        = link_cmd url_norm (H (encode info)) name (option_map norm (Metainfo.o_announce o)) (Metainfo.tiers_of o)
+                   peers select_only /\
+      create_link norm H url_norm o c peers
+        = link_cmd url_norm (H (encode info)) name (option_map norm (Metainfo.o_announce o)) (Metainfo.tiers_of o)
+                   peers [].
+Proof. exact created_link_back. Qed.
+
+(** headline: whenever `torrent link` prints a URI for the created bytes, a standard parser (either `+` convention)
+    decodes it to xt = urn:btih: + hex of H (the info span of those bytes), dn = the requested / derived name, one tr
+    per distinct tracker text - the normalised --announce, then the tier members in order, first appearance only
+    (c10_trackers_order_dedup) - in url normal form, one x.pe per --peer, the ascending duplicate-free selection;
+    and without --select-only it is the very link `create --link` prints *)
+Theorem c10_created_bytes_link_back :
+  forall norm host_canon git_suffix (H : list N -> list N) host_disp url_norm md plus o c v name nodes upd
+         peers select_only uri,
+    Metainfo.input_ok (Metainfo.c_input c) = true -> Metainfo.opts_ok o = true ->
+    Metainfo.piece_length_of o (Metainfo.c_input c) < 2 ^ 63 ->
+    texts_utf8 norm host_canon git_suffix o c = true -> content_shown_ok (Metainfo.o_md5 o) c = true ->
+    Metainfo.build norm host_canon git_suffix o c = Some v ->
+    Metainfo.name_of o (Metainfo.c_input c) = Some name ->
+    nodes_text host_canon host_disp o = Some nodes -> update_text norm url_norm o = Some upd ->
+    Infohash.depth_ok md v = true ->
+    (forall x, wfb (H x)) -> wfb name -> Forall wfb peers -> (forall t u, url_norm t = Some u -> wfb u) ->
+    link_file H host_disp url_norm md (encode v) peers select_only = Some uri ->
+    exists info q trs,
+      Schema.vget (Schema.txt "info") v = Some info /\
+      Infohash.hashed_bytes md (encode v) = Some (encode info) /\
+      map_opt url_norm (tracker_texts (option_map norm (Metainfo.o_announce o)) (Metainfo.tiers_of o)) = Some trs /\
+      uri_query uri = Some q /\
+      std_parse plus q =
+        (k_xt, k_urn_btih ++ hex_lower (H (encode info))) :: (k_dn, name)
+        :: map (fun t => (k_tr, t)) trs ++ map (fun p => (k_pe, p)) peers
+        ++ match index_set select_only with [] => [] | _ :: _ => [(k_so, so_value (index_set select_only))] end /\
+      (select_only = [] -> create_link norm H url_norm o c peers = Some uri).
+Proof. exact created_bytes_link_back. Qed.
+
+(** [depth_ok] is no restriction on the command line: a created metainfo nests at most 5 deep (top, info, files, one
+    file, its path), so it is within every limit of at least 5 - in particular the one of this tree - and within
+    the limit of the serde reader [Summary.from_input] runs (the same depth function, written twice) *)
+Theorem c10_e2e_depth_within_limit :
+  forall norm host_canon git_suffix o c v,
+    Metainfo.build norm host_canon git_suffix o c = Some v ->
+    (Infohash.vdepth v <= 5) /\
+    (Infohash.depth_ok None v = true /\ (forall m, 5 <= m -> Infohash.depth_ok (Some m) v = true) /\
+     Infohash.depth_ok GenInfohash.max_depth v = true) /\
+    (BencodeWide.depth v = Infohash.vdepth v /\ (BencodeWide.depth v <=? BencodeWide.max_depth) = true).
+Proof. exact build_depth_all. Qed.
+
+(** link.rs loads the file with Metainfo::from_input: on the created bytes it returns the requested metainfo (name,
+    trackers - what the link uses - and everything else, c07_created_bytes_load) *)
+Theorem c10_e2e_link_loader :
+  forall norm host_canon git_suffix host_disp url_norm o c v name nodes upd,
+    Metainfo.input_ok (Metainfo.c_input c) = true -> Metainfo.opts_ok o = true ->
+    Metainfo.piece_length_of o (Metainfo.c_input c) < 2 ^ 63 ->
+    texts_utf8 norm host_canon git_suffix o c = true -> content_shown_ok (Metainfo.o_md5 o) c = true ->
+    Metainfo.build norm host_canon git_suffix o c = Some v ->
+    Metainfo.name_of o (Metainfo.c_input c) = Some name ->
+    nodes_text host_canon host_disp o = Some nodes -> update_text norm url_norm o = Some upd ->
+    exists m, Summary.from_input host_disp url_norm (encode v) = Some m /\
+              Summary.m_name m = name /\ Summary.m_announce m = option_map norm (Metainfo.o_announce o) /\
+              (match Summary.m_announce_list m with Some t => t | None => [] end) = Metainfo.tiers_of o.
+Proof. exact created_bytes_link_fields. Qed.
+
+(** instances: the command line with every option (C05's example plus --name, --piece-length, --no-creation-date)
+    satisfies the hypotheses; its link decodes as stated under both conventions and equals the link of
+    `create --link`; a tracker given twice appears once *)
+Example c10_e2e_hyps_satisfiable :
+  EndToEndShowExamples.hyps EndToEndShowExamples.all_opts MetainfoProofs.ex_content = true /\
+  Metainfo.name_of EndToEndShowExamples.all_opts (Metainfo.c_input MetainfoProofs.ex_content) = Some (B "my name") /\
+  nodes_text EndToEndShowExamples.idb EndToEndShowExamples.host_brackets EndToEndShowExamples.all_opts
+    = Some (Some [B "router.example.com:6881"; B "[2001:db8::1]:6882"; B "203.0.113.5:1"]) /\
+  update_text EndToEndShowExamples.idb EndToEndShowExamples.some_url EndToEndShowExamples.all_opts
+    = Some (Some (B "https://example.com/feed")) /\
+  exists v, Metainfo.build EndToEndShowExamples.idb EndToEndShowExamples.idb EndToEndShowExamples.ex_suffix
+              EndToEndShowExamples.all_opts MetainfoProofs.ex_content = Some v /\
+            Infohash.depth_ok GenInfohash.max_depth v = true.
+Proof. exact EndToEndShowExamples.ex_all_hyps. Qed.
+
+Example c10_e2e_all_options_link :
+  forall plus,
+  EndToEndShowExamples.decoded plus
+    (EndToEndShowExamples.linked GenInfohash.max_depth EndToEndShowExamples.all_opts MetainfoProofs.ex_content
+       [B "[::1]:80"] [2; 0; 2]) =
+  Some ([ (B "xt", B "urn:btih:" ++ hex_lower
+              (EndToEndShowExamples.ex_sha
+                 (match EndToEndShowExamples.built EndToEndShowExamples.all_opts MetainfoProofs.ex_content with
+                  | Some tb => match Infohash.hashed_bytes GenInfohash.max_depth tb with Some s => s | None => [] end
+                  | None => [] end)));
+          (B "dn", B "my name"); (B "tr", B "http://example.com/announce"); (B "tr", B "http://a.example/announce");
+          (B "tr", B "udp://b.example:1337/announce"); (B "tr", B "http://c.example/announce");
+          (B "x.pe", B "[::1]:80"); (B "so", B "0,2") ]) /\
+  EndToEndShowExamples.linked GenInfohash.max_depth EndToEndShowExamples.all_opts MetainfoProofs.ex_content [B "[::1]:80"] []
+  = create_link EndToEndShowExamples.idb EndToEndShowExamples.ex_sha EndToEndShowExamples.some_url
+      EndToEndShowExamples.all_opts MetainfoProofs.ex_content [B "[::1]:80"] /\
+  EndToEndShowExamples.linked GenInfohash.max_depth EndToEndShowExamples.all_opts MetainfoProofs.ex_content [] [] <> None.
+Proof. exact EndToEndShowExamples.ex_all_link. Qed.
+
+Example c10_e2e_repeated_tracker_once :
+  option_map (map snd)
+    (EndToEndShowExamples.decoded true
+       (EndToEndShowExamples.linked None EndToEndShowExamples.dup_opts EndToEndShowExamples.one_file [] [])) =
+  Some [ B "urn:btih:" ++ hex_lower
+              (EndToEndShowExamples.ex_sha
+                 (match EndToEndShowExamples.built EndToEndShowExamples.dup_opts EndToEndShowExamples.one_file with
+                  | Some tb => match Infohash.hashed_bytes None tb with Some s => s | None => [] end
+                  | None => [] end));
+         B "file.bin"; B "udp://a:1"; B "udp://b:2" ].
+Proof. exact EndToEndShowExamples.ex_dup_link. Qed.
+
+(** the hypotheses that are really needed, beyond those of c07_e2e_needs_*: a stored host the url crate would not
+    read back makes the loader - hence `link` - refuse the file; a depth limit below the nesting of a metainfo makes
+    `link` refuse what `create --link` still prints *)
+Example c10_e2e_needs_host_readback :
+  nodes_text EndToEndShowExamples.idb (fun _ => None)
+    (EndToEndShowExamples.with_node EndToEndShowExamples.no_opts (B "h.example", 1)) = None /\
+  option_map (fun tb => Summary.show EndToEndShowExamples.no_cal dec (fun _ => None) EndToEndShowExamples.some_url
+                          Summary.FromPath tb EndToEndShowExamples.ex_ih)
+    (EndToEndShowExamples.built (EndToEndShowExamples.with_node EndToEndShowExamples.no_opts (B "h.example", 1))
+       EndToEndShowExamples.one_file) = Some Summary.ShowRejected.
+Proof. exact EndToEndShowExamples.ex_needs_host_readback. Qed.
+
+Example c10_e2e_needs_depth :
+  (exists v, Metainfo.build EndToEndShowExamples.idb EndToEndShowExamples.idb EndToEndShowExamples.ex_suffix
+               EndToEndShowExamples.no_opts EndToEndShowExamples.one_file = Some v /\
+             Infohash.depth_ok (Some 1) v = false) /\
+  EndToEndShowExamples.linked (Some 1) EndToEndShowExamples.no_opts EndToEndShowExamples.one_file [] [] = None /\
+  create_link EndToEndShowExamples.idb EndToEndShowExamples.ex_sha EndToEndShowExamples.some_url
+    EndToEndShowExamples.no_opts EndToEndShowExamples.one_file [] <> None.
+Proof. exact EndToEndShowExamples.ex_needs_depth. Qed.
+
+Print Assumptions c10_e2e_same_serialiser.
+Print Assumptions c10_e2e_lossy_on_created.
+Print Assumptions c10_created_links_are_link_cmd.
+Print Assumptions c10_created_bytes_link_back.
+Print Assumptions c10_e2e_depth_within_limit.
+Print Assumptions c10_e2e_link_loader.
+Print Assumptions c10_e2e_hyps_satisfiable.
+Print Assumptions c10_e2e_all_options_link.
+Print Assumptions c10_e2e_repeated_tracker_once.
+Print Assumptions c10_e2e_needs_host_readback.
+Print Assumptions c10_e2e_needs_depth.
